@@ -912,6 +912,10 @@ def unpack_extension(data):
 
         colon = data.index(b':')
         number = data[:colon]
+        # canonical decimal only: int() alone would also accept signs,
+        # whitespace, underscores and leading zeros
+        if not re.fullmatch(br'0|[1-9][0-9]*', number):
+            raise ValueError("malformed length %r in URI extension block" % (number,))
         length = int(number)
         data = data[colon+1:]
 
@@ -919,12 +923,17 @@ def unpack_extension(data):
         assert data[length:length+1] == b','
         data = data[length+1:]
 
-        d[str(key, "utf-8")] = value
+        key = str(key, "utf-8")
+        if key in d:
+            raise ValueError("duplicate key %r in URI extension block" % (key,))
+        d[key] = value
 
     # convert certain things to numbers
     for intkey in ('size', 'segment_size', 'num_segments',
                    'needed_shares', 'total_shares'):
         if intkey in d:
+            if not re.fullmatch(br'0|-?[1-9][0-9]*', d[intkey]):
+                raise ValueError("malformed integer %r for %r in URI extension block" % (d[intkey], intkey))
             d[intkey] = int(d[intkey])
     return d
 
